@@ -248,6 +248,11 @@ class C02(Prop):
                     if r1[k] < avail and r1[k] != r2[k]:
                         ok = False
                         notes.append('k=%d: %d rows pulled from 100-row sources, %d from 10000-row sources' % (k, r1[k], r2[k]))
+                    if 'presorted' in flags and r2[k] > 60 * k + 100:
+                        # a streaming merge / run detector may skip rows, but reading a large part of 10000-row sources for
+                        # the first rows means something is being sorted or materialised
+                        ok = False
+                        notes.append('k=%d: %d rows pulled by a presorted operator' % (k, r2[k]))
                     if 'drop' not in flags and 'build' not in flags and r2[k] > k + 2 + 2 * e['nsrc']:
                         ok = False
                         notes.append('k=%d: %d rows pulled (more than k + small constant)' % (k, r2[k]))
